@@ -230,27 +230,58 @@ def _m(e, k=None):
 
 
 class SecGen(F.Gen):
-    """Array-section assignments of one `family`:
+    """Array-section assignments; every section assignment of a program is an instance of ONE form of one
+    `family` (so a violation key can name the form):
       disjoint   the right-hand side reads no element the statement defines (other array, disjoint section,
-                 or the same section element by element)
+                 or the same section element by element); explicit bounds, unit strides
       overlap    the right-hand side reads elements the statement defines at other positions (shifts in both
                  directions, reversal, a scalar element of the target, 2-d shifts, row <- column)
       stride     strides / directions that differ between the two sides (no overlap)
-      open       omitted bounds, whole arrays with different lower bounds, zero-size sections, variable bounds
+      open       whole arrays (also with different lower bounds), `:` subscripts, zero-size sections, variable bounds
+      partial    one-sided bounds `:hi`, `lo:`, `::st`
       intrinsic  sections as arguments of elemental intrinsics (no overlap)
+    Further knobs (classes of the surrounding code):
+      print_elems  PRINT items mention array elements (default: scalars and whole arrays only)
+      nested_subs  subscripts mention array elements (default: scalars only)
+      loopmatch    a section assignment sits inside a DO loop with the same bounds as its range
+                   (default: programs with such a coincidence are not generated, see nested_loop_match)
     Arrays: ia(0:4), ic(2:6) local, ib(1:3,-1:1), ra(1:4)."""
 
-    FAMILIES = ('disjoint', 'overlap', 'stride', 'open', 'intrinsic')
+    FAMILIES = ('disjoint', 'overlap', 'stride', 'open', 'partial', 'intrinsic')
 
-    def __init__(self, rng, features=(), family='disjoint', form=None):
+    def __init__(self, rng, features=(), family='disjoint', form=None, print_elems=False, nested_subs=False, loopmatch=False):
         super().__init__(rng, tuple(features) + ('section', 'twod'))
         self.family = family
         self.form = form          # index into the family's list; one form per program (None: drawn in program())
+        self.print_elems = print_elems
+        self.nested_subs = nested_subs
+        self.loopmatch = loopmatch
+        self.in_index = 0
 
     # ---- the section statements: every one in a program is an instance of the same form
     def section_stmt(self):
         forms = getattr(self, 'fam_' + self.family)()
         return [forms[self.form % len(forms)]]
+
+    def index(self, arr, dim, scalars, simple=None):
+        self.in_index += 1
+        try:
+            return super().index(arr, dim, scalars, simple)
+        finally:
+            self.in_index -= 1
+
+    def int_leaf(self, scalars):
+        if self.in_index and not self.nested_subs:
+            return V(self.rng.choice(scalars)) if self.rng.random() < 0.7 else N(self.rng.choice([0, 1, 2, 3, 5, 7]))
+        return super().int_leaf(scalars)
+
+    def stmt(self, d):
+        out = super().stmt(d)
+        if not self.print_elems:
+            for s in out:
+                if s['s'] == 'print':
+                    s['items'] = [V(self.rng.choice(self.int_scalars_noarr)) if has_kind(it, 'arr') else it for it in s['items']]
+        return out
 
     def sc(self):
         return self.int_leaf(self.int_scalars_noarr)
@@ -324,17 +355,25 @@ class SecGen(F.Gen):
             assign(V('ra'), op('prod', V('ra'), R(1, 2))),
             assign(V('ia'), N(rng.randint(0, 5))),
             assign(el('ia', rng_()), _m(op('sum', el('ic', rng_()), N(1)))),
-            assign(el('ia', rng_(NONE, N(2))), el('ic', rng_(N(4), NONE))),
-            assign(el('ia', rng_(N(2), NONE)), _m(op('sum', el('ic', rng_(NONE, N(4))), V('t1')))),
-            assign(el('ia', rng_(NONE, NONE, N(2))), el('ic', rng_(N(2), N(4)))),
             assign(el('ib', rng_(), N(j)), el('ia', rng_(N(0), N(2)))),
-            assign(el('ib', rng_(), N(j)), _m(op('sum', el('ib', rng_(), N(j)), el('ia', rng_(N(2), NONE))))),
+            assign(el('ib', rng_(), N(j)), _m(op('sum', el('ib', rng_(), N(j)), el('ia', rng_(N(2), N(4)))))),
             assign(el('ib', N(2), rng_()), el('ic', rng_(N(3), N(5)))),
             assign(el('ib', rng_(), rng_()), _m(op('sum', V('ib'), N(2)))),
-            assign(el('ib', rng_(NONE, N(2)), rng_(N(0), NONE)), N(rng.randint(0, 4))),
             assign(el('ia', rng_(N(3), N(2))), N(7)),                                   # zero-size
             assign(el('ia', rng_(N(0), nb)), _m(op('sum', el('ic', rng_(N(2), op('sum', nb, N(2)))), N(1)))),
             assign(el('ia', rng_(N(1), call('min', V('n'), N(4)))), N(rng.randint(1, 5))),   # possibly zero-size
+        ]
+
+    def fam_partial(self):
+        rng = self.rng
+        return [
+            assign(el('ia', rng_(NONE, N(2))), el('ic', rng_(N(4), NONE))),
+            assign(el('ia', rng_(N(2), NONE)), _m(op('sum', el('ic', rng_(NONE, N(4))), V('t1')))),
+            assign(el('ia', rng_(NONE, NONE, N(2))), el('ic', rng_(N(2), N(4)))),
+            assign(el('ia', rng_(NONE, N(1))), N(rng.randint(0, 5))),
+            assign(el('ib', rng_(NONE, N(2)), rng_(N(0), NONE)), N(rng.randint(0, 4))),
+            assign(el('ib', rng_(), N(0)), _m(op('sum', el('ib', rng_(), N(0)), el('ia', rng_(N(2), NONE))))),
+            assign(el('ra', rng_(N(3), NONE)), op('prod', el('ra', rng_(NONE, N(2))), R(1, 2))),
         ]
 
     def fam_intrinsic(self):
@@ -383,16 +422,63 @@ class SecGen(F.Gen):
                     assign(el('ic', V('i')), call('mod', op('sum', op('prod', V('i'), N(3)), V('n')), N(7)))]}]
         if self.form is None:
             self.form = rng.randrange(64)
-        body = init + self.block(depth, nstmts)
-        if not any(x['s'] == 'assign' and x['lhs']['name'] in ('ia', 'ib', 'ic', 'ra') and (x['lhs']['k'] == 'var' or any(c['k'] == 'range' for c in x['lhs']['c']))
-                   for x in F._flat(body)):
-            body += self.section_stmt()
+        main = self.block(depth, nstmts)
+        main.insert(rng.randint(0, len(main)), self.section_stmt()[0])     # the form occurs at least once, at top level
+        body = init + main
+        if self.print_elems:
+            body += [{'s': 'print', 'items': [el('ia', N(rng.randint(0, 4))), el('ib', N(rng.randint(1, 3)), N(rng.randint(-1, 1))), el('ic', N(rng.randint(2, 6)))]}]
+        if self.nested_subs:
+            body += [assign(V('k'), _m(op('sum', el('ia', call('mod', call('abs', el('ib', N(2), N(rng.randint(-1, 1)))), N(5))), V('k')))),
+                     assign(el('ib', op('sum', N(1), call('mod', call('abs', el('ic', N(rng.randint(2, 6)))), N(3))), N(0)), _m(op('sum', V('t1'), N(1))))]
+        if self.loopmatch:
+            body += [{'s': 'do', 'var': 'i', 'lo': N(1), 'hi': N(3), 'st': NONE, 'body': [
+                assign(el('ia', rng_(N(1), N(3))), _m(op('sum', el('ic', rng_(N(2), N(4))), V('i'))))]}]
         # the local array is observable through the result k
         body += [{'s': 'do', 'var': 'i', 'lo': N(2), 'hi': N(6), 'st': NONE, 'body': [
             assign(V('k'), call('mod', op('sum', op('prod', V('k'), N(3)), el('ic', V('i'))), N(101)))]}]
         prog = {'units': [unit('kernel', args, decls, body)] + units}
         prog['form'] = sec_forms({'units': [unit('kernel', args, decls, self.section_stmt())]})
         return prog
+
+
+def has_kind(e, kind):
+    if isinstance(e, list):
+        return any(has_kind(c, kind) for c in e)
+    if isinstance(e, dict):
+        return e.get('k') == kind or any(has_kind(v, kind) for v in e.values() if isinstance(v, (dict, list)))
+    return False
+
+
+def nested_loop_match(prog):
+    """Is there a DO loop whose bounds (lo, hi, step as written) equal the range of an array-valued
+    assignment target inside it?  (whole arrays and `:` count with their declared bounds)"""
+    def ranges(u, lhs):
+        d = next((x for x in u['decls'] if x['name'] == lhs['name']), None)
+        if d is None or not d['dims']:
+            return []
+        if lhs['k'] == 'var':
+            return [(str(lo), str(hi), '') for lo, hi in d['dims']]
+        out = []
+        for c, (lo, hi) in zip(lhs['c'], d['dims']):
+            if c['k'] == 'range':
+                out.append((str(lo) if c['lo'] == NONE else F.rx(c['lo']), str(hi) if c['hi'] == NONE else F.rx(c['hi']),
+                            '' if c['st'] == NONE else F.rx(c['st'])))
+        return out
+
+    def walk(u, ss, loops):
+        for s in ss:
+            if s['s'] == 'assign' and any(r in loops for r in ranges(u, s['lhs'])):
+                return True
+            inner = loops
+            if s['s'] == 'do':
+                inner = loops + [(F.rx(s['lo']), F.rx(s['hi']), '' if s['st'] == NONE else F.rx(s['st']))]
+            for key in ('body', 'els', 'default'):
+                if isinstance(s.get(key), list) and walk(u, s[key], inner):
+                    return True
+            if any(walk(u, b, inner) for b in s.get('bodies', [])) or any(walk(u, c['body'], inner) for c in s.get('cases', [])):
+                return True
+        return False
+    return any(walk(u, u['body'], []) for u in prog['units'])
 
 
 def sec_forms(prog):
@@ -479,3 +565,194 @@ def report(ctx, label, cases, results, fails, recheck=None, deadline=None, round
 
 def split_lines(text):
     return text.split('\n')
+
+
+# ----------------------------------------------------------------------------- C40: corpora for the normalisers
+def _T(b):
+    return {'k': 'log', 'v': b}
+
+
+def const_conds():
+    """Conditions that are decidable at compile time (and a few that only look like it)."""
+    return [_T(True), _T(False), F.cmp_('>', N(1), N(2)), F.cmp_('==', N(3), N(3)), op('and', _T(False), V('flag')),
+            op('or', _T(True), V('flag')), op('not', _T(False)), F.cmp_('==', op('sum', N(2), N(1)), N(3)),
+            op('and', _T(True), op('not', _T(True))), F.cmp_('==', V('n'), V('n')),
+            op('and', F.cmp_('<', N(1), N(2)), F.cmp_('>', V('m'), N(0))), op('or', V('flag'), op('not', V('flag')))]
+
+
+def add_constant_conditionals(prog, rng, p=0.35):
+    """Wrap some statements of the kernel into IF constructs whose condition is decidable at compile time
+    (text-only `raw` conditions are not needed: the conditions are ordinary expressions)."""
+    prog = copy.deepcopy(prog)
+
+    def cc():
+        return copy.deepcopy(rng.choice(const_conds()))
+
+    def wrap(ss, depth):
+        out = []
+        for s in ss:
+            for key in ('body', 'els', 'default'):
+                if isinstance(s.get(key), list) and s[key]:
+                    s[key] = wrap(s[key], depth + 1)
+            if 'bodies' in s:
+                s['bodies'] = [wrap(b, depth + 1) for b in s['bodies']]
+            if rng.random() < p and depth < 4 and s['s'] not in ('exit', 'cycle'):
+                n = rng.choice([1, 1, 2])
+                w = {'s': 'if', 'conds': [cc() for _ in range(n)], 'bodies': [[s]] + [[copy.deepcopy(s)] for _ in range(n - 1)],
+                     'els': [copy.deepcopy(s)] if rng.random() < 0.4 else []}
+                if rng.random() < 0.3:
+                    w = {'s': 'if', 'conds': [cc()], 'bodies': [[w]], 'els': []}
+                out.append(w)
+            else:
+                out.append(s)
+        return out
+    u = prog['units'][0]
+    u['body'] = u['body'][:5] + wrap(u['body'][5:], 0)
+    return prog
+
+
+_IDENT = re.compile(r'(?<![\w.])[a-z][a-z0-9_]*')
+
+
+def mixed_case(text, rng):
+    """Respell identifiers and keywords in random case (Fortran is case-insensitive outside character
+    literals - there are none - and kind suffixes / dotted operators are left alone)."""
+    def f(m):
+        w = m.group(0)
+        r = rng.random()
+        return w if r < 0.4 else w.upper() if r < 0.75 else w.capitalize()
+    return '\n'.join(_IDENT.sub(f, line) for line in text.split('\n'))
+
+
+def group_declarations(text):
+    """Merge consecutive one-entity declarations with the same type/attribute prefix into one statement."""
+    out = []
+    for line in text.split('\n'):
+        m = re.match(r'^(\s*)([^!]*?)\s*::\s*(.+)$', line)
+        if m and out:
+            pm = re.match(r'^(\s*)([^!]*?)\s*::\s*(.+)$', out[-1])
+            if pm and pm.group(2).lower() == m.group(2).lower() and 'parameter' not in m.group(2).lower():
+                out[-1] = out[-1] + ', ' + m.group(3)
+                continue
+        out.append(line)
+    return '\n'.join(out)
+
+
+CMOD = """module cmod
+  implicit none
+  integer, parameter :: jpim = selected_int_kind(9)
+  integer, parameter :: jprb = selected_real_kind(13, 300)
+  integer, parameter :: c1 = 3, c2 = 5, c3 = 2
+  integer :: g1, g2(4)
+  real(kind=jprb) :: gx
+contains
+  subroutine csub(a, n)
+    integer, intent(in) :: n
+    integer, intent(inout) :: a(n)
+    a(1) = a(1) + n
+  end subroutine csub
+  function cfun(i) result(r)
+    integer, intent(in) :: i
+    integer :: r
+    r = i + c1
+  end function cfun
+end module cmod
+"""
+CSYMS = ['jpim', 'jprb', 'c1', 'c2', 'c3', 'g1', 'g2', 'gx', 'csub', 'cfun']
+
+
+def import_snippet(rng):
+    """kmod imports a random subset of cmod's symbols at module and routine level (with renames, with and
+    without ONLY lists, used as kind / dimension / in expressions / in calls / in a member procedure / in a
+    second routine / not at all)."""
+    mod_imp = rng.sample(CSYMS, rng.randint(0, 5))
+    r_imp = [s for s in rng.sample(CSYMS, rng.randint(1, 6)) if s not in mod_imp]
+    avail = mod_imp + r_imp
+    renames = {}
+    if r_imp and rng.random() < 0.4:
+        s = rng.choice([x for x in r_imp if x not in ('jprb', 'jpim')] or r_imp)
+        if s not in ('jprb', 'jpim'):
+            renames[s] = 'my_' + s
+
+    def nm(s):
+        return renames.get(s, s)
+    used = [s for s in avail if rng.random() < 0.55]
+    L = ['module kmod']
+    if mod_imp:
+        L.append('  use cmod, only: ' + ', '.join(mod_imp))
+    elif rng.random() < 0.3:
+        L.append('  use cmod')
+    L += ['  implicit none', 'contains', '  subroutine kernel(n, ia, x)']
+    if r_imp:
+        if rng.random() < 0.7:
+            L.append('    use cmod, only: ' + ', '.join(f'{renames[s]} => {s}' if s in renames else s for s in r_imp))
+        else:       # two USE statements for the same module
+            h = max(1, len(r_imp) // 2)
+            for part in (r_imp[:h], r_imp[h:]):
+                if part:
+                    L.append('    use cmod, only: ' + ', '.join(f'{renames[s]} => {s}' if s in renames else s for s in part))
+    kind_r = f'(kind={nm("jprb")})' if 'jprb' in used else ''
+    kind_i = f'(kind={nm("jpim")})' if 'jpim' in used else ''
+    L += ['    integer, intent(in) :: n', f'    integer{kind_i}, intent(inout) :: ia(4)', f'    real{kind_r}, intent(inout) :: x']
+    if 'c2' in used:
+        L.append(f'    integer :: loc({nm("c2")})')
+    L.append('    integer :: i')
+    body = ['    i = n + 1']
+    if 'c1' in used:
+        body.append(f'    i = i + {nm("c1")}')
+    if 'c3' in used:
+        body.append(f'    ia({nm("c3")}) = ia({nm("c3")}) + 1')
+    if 'c2' in used:
+        body.append(f'    loc = {nm("c2")}')
+        body.append('    ia(1) = loc(2)')
+    if 'g1' in used:
+        body.append(f'    {nm("g1")} = i')
+    if 'g2' in used:
+        body.append(f'    ia(1) = {nm("g2")}(2) + ia(1)')
+    if 'gx' in used:
+        body.append(f'    x = x + {nm("gx")}')
+    if 'csub' in used:
+        body.append(f'    call {nm("csub")}(ia, 4)')
+    if 'cfun' in used:
+        body.append(f'    ia(3) = {nm("cfun")}(i)')
+    member = rng.random() < 0.4
+    if member:
+        body.append('    call inner(i)')
+    L += body
+    if member:
+        muse = [s for s in avail if s in ('c1', 'g1', 'c3') and rng.random() < 0.7]
+        L += ['  contains', '    subroutine inner(j)', '      integer, intent(inout) :: j', '      j = j + 1']
+        L += [f'      j = j + {nm(s)}' for s in muse]
+        L += ['    end subroutine inner']
+    L.append('  end subroutine kernel')
+    if rng.random() < 0.5:
+        ouse = [s for s in mod_imp if s in ('c1', 'c2', 'c3', 'g1') and rng.random() < 0.7]
+        L += ['  subroutine other(j)', '    integer, intent(inout) :: j', '    j = j*2'] + [f'    j = j + {s}' for s in ouse] + ['  end subroutine other']
+    L.append('end module kmod')
+    return '\n'.join(L) + '\n'
+
+
+def seqassoc_snippet(rng):
+    """Calls that pass an array ELEMENT to an array dummy (sequence association), next to calls that pass
+    sections / whole arrays / scalars; callees are module procedures and an internal procedure."""
+    n1, n2 = rng.choice([(4, 3), (5, 2), (3, 3)])
+    lb = rng.choice([1, 0, 2])
+    L = ['module kmod', '  implicit none', '  integer, parameter :: jprb = selected_real_kind(13, 300)', 'contains',
+         '  subroutine callee1(x, n)', '    integer, intent(in) :: n', '    real(kind=jprb), intent(inout) :: x(n)', '    x(1) = x(1) + 1.0_jprb',
+         '  end subroutine callee1',
+         '  subroutine callee2(y, n, m)', '    integer, intent(in) :: n, m', '    real(kind=jprb), intent(inout) :: y(n, m)', '    y(1, 1) = y(1, 1)*2.0_jprb',
+         '  end subroutine callee2',
+         '  subroutine kernel(a, b, c, v, n, m, i, j)',
+         '    integer, intent(in) :: n, m, i, j',
+         f'    real(kind=jprb), intent(inout) :: a({n1}, {n2}), b({lb}:{lb + n1 - 1}, {n2}), c(n, m, 2), v(6)',
+         '    real(kind=jprb) :: s']
+    calls = [f'call callee1(a(1, {rng.randint(1, n2)}), {n1})', 'call callee1(a(i, j), 2)', f'call callee1(b({lb}, 1), {n1})',
+             'call callee1(b(i + 1, j), 2)', 'call callee1(c(1, 1, 2), n)', 'call callee1(c(i, j, 1), n - i + 1)',
+             f'call callee1(v({rng.randint(1, 4)}), 2)', 'call callee1(v(i), 2)', f'call callee1(a(:, {rng.randint(1, n2)}), {n1})',
+             'call callee1(v, 6)', 'call callee1(v(2:4), 3)', 'call callee2(c(1, 1, 1), n, m)', 'call callee2(c(1, 1, i), n, m)',
+             f'call callee2(a(1, 1), {n1}, {n2})', f'call callee2(a, {n1}, {n2})', 'call callee2(c(:, :, 2), n, m)', 'call local1(a(2, 1), s)',
+             'call local1(v(j), s)']
+    L += ['    ' + c for c in rng.sample(calls, rng.randint(2, 7))]
+    L += ['  contains', '    subroutine local1(z, r)', '      real(kind=jprb), intent(in) :: z(2)', '      real(kind=jprb), intent(out) :: r',
+          '      r = z(1) + z(2)', '    end subroutine local1', '  end subroutine kernel', 'end module kmod']
+    return '\n'.join(L) + '\n'
